@@ -74,7 +74,7 @@ def rule_rebase(rep, tname, m):
         return
     ok = False
     detail = "last_index := %s" % show(li)
-    if li.get("k") == "bin" and li["op"] == "-" and li["l"].get("k") == "havoc" and ":idx" in li["l"].get("why", ""):
+    if li.get("k") == "bin" and li["op"] == "-" and li["l"].get("k") == "havoc" and li["l"].get("why", "").endswith(":" + str(m["roles"]["idx"])):
         Y = strip_casts(li["r"])
         X = m["load"]["X"]
         ok = nbit(Y) == nbit(X)
@@ -82,7 +82,7 @@ def rule_rebase(rep, tname, m):
     rep.ob(R, key, ok, detail + " (the position must be rebased by exactly the number of frames appended to the history)", loc(fn),
            sample={"type": tname, "rebase": detail})
     # idx starts from the carried position
-    idx0 = m["locals"].get("idx")
+    idx0 = m["roles"]["idx0"]
     rep.ob(R, key + "/starts-from-carry", idx0 is not None and nbit(idx0) == "self.last_index", "idx starts at %s" % show(idx0), loc(fn))
 
 
@@ -230,13 +230,36 @@ def run(rep):
         rep.guarded("R-C05-shift", one)
     import fftmodel
     rep.guarded("R-C05-fft", fftmodel.rule_conserve, "R-C05-fft")
+    # the per-frame computation must be a function of the absolute position only (the position relative to the chunk start is negative
+    # inside the history, so the fractional part must be floor-based) and must agree between the FixedIn / FixedOut variants
+    import C01
+    import C08
+    holder = {}
+    rep.guarded("R-C01-poly", lambda r: holder.update(polys=C08.rule_poly(C08._Silent(r), "R-C01-poly", "asynchro_sinc", ["interp_cubic", "interp_quad", "interp_lin"])))
+    rep.guarded("R-C01-nodes", lambda r: C01.rule_nodes(r, holder.get("polys", {})))
+    rep.guarded("R-C01-siblings", C01.rule_siblings)
+    rep.guarded("R-C08-window", lambda r: holder.update(per_type=C08.rule_window(r, "R-C08-window")))
+
+    def fast_siblings(rep):
+        pt = holder.get("per_type") or {}
+        for variant in list(C08.FAST_BLENDS) + ["Nearest"]:
+            d = pt.get(variant, {})
+            rep.ob("R-C08-siblings", variant, "FastFixedIn" in d and "FastFixedOut" in d and d["FastFixedIn"] == d["FastFixedOut"],
+                   "FastFixedIn %s vs FastFixedOut %s" % (d.get("FastFixedIn"), d.get("FastFixedOut")), "src/asynchro_fast.rs")
+    rep.guarded("R-C08-siblings", fast_siblings)
     rep.floor("R-C05-shift", 1 + 4 * 3)
     rep.floor("R-C05-rebase", 8)
     rep.floor("R-C05-preroll", 4 * 3 + 18)
-    rep.floor("R-C05-fft", 6)
+    rep.floor("R-C05-fft", 6 + 7)
+    rep.floor("R-C01-nodes", 12)
+    rep.floor("R-C01-siblings", 4)
+    rep.floor("R-C08-window", 10)
+    rep.floor("R-C08-siblings", 5)
     rep.clause("R-C05-shift", "the history shift uses the size of the chunk that was loaded last (immutable size, or a field refreshed from the loaded size and written nowhere else, or shift after load in the same call)")
     rep.clause("R-C05-rebase", "last_index is rebased by exactly the number of frames appended; the read position starts from the carried last_index")
     rep.clause("R-C05-preroll", "one pre-roll: shift length = load start = read base offset in every arm = pre-roll term of the allocation")
+    rep.clause("R-C01-nodes / R-C08-window", "each frame is computed from floor(idx) and the floor-based fractional part (valid for the negative chunk-relative positions inside the history): shared with C01 / C08")
+    rep.clause("R-C01-siblings / R-C08-siblings", "FixedIn and FixedOut variants compute each frame identically")
     rep.clause("R-C05-fft", "FFT adapters: saved' = saved + in − chunks·fft_in, out = chunks·fft_out, remainder parked by copy_within [used..saved) -> 0 (and the dual for fixed-out)")
     rep.not_decided += ["equality of the two output streams up to rounding", "set_chunk_size schedules beyond the carry rule", "FFT block-size equivalence classes"]
     rep.trusted += ["syn parser", "slice::copy_within / copy_from_slice semantics"]
